@@ -107,6 +107,16 @@ class C16(Check):
                 self.undecided_ob("X4", LIN, q, f"expansion-{side}", bm, "expansion of species occurrences to label positions not found")
                 continue
             lc = ast.parse(pad_args[i_], mode="eval").body
+            # list(chain.from_iterable(isotopomers[i] for i in SRC)) is the nested comprehension [j for i in SRC for j in isotopomers[i]]
+            inner_ = lc
+            while isinstance(inner_, ast.Call) and norm(inner_.func) in ("list", "tuple") and len(inner_.args) == 1:
+                inner_ = inner_.args[0]
+            if isinstance(inner_, ast.Call) and norm(inner_.func).endswith("chain.from_iterable") and len(inner_.args) == 1 \
+                    and isinstance(inner_.args[0], (ast.GeneratorExp, ast.ListComp)) and len(inner_.args[0].generators) >= 1:
+                g_ = inner_.args[0]
+                j_ = ast.Name(id="_pos", ctx=ast.Load())
+                lc = ast.ListComp(elt=j_, generators=[*g_.generators, ast.comprehension(target=ast.Name(id="_pos", ctx=ast.Store()), iter=g_.elt, ifs=[], is_async=0)])
+                ast.fix_missing_locations(lc)
             anchor4 = [a_ for a_ in ast.walk(bm) if isinstance(a_, ast.ListComp) and "isotopomers[" in norm(a_)]
             anchor4 = anchor4[min(i_, len(anchor4) - 1)] if anchor4 else bm
             if not (isinstance(lc, ast.ListComp) and "isotopomers[" in norm(lc)):
@@ -330,8 +340,8 @@ class C16(Check):
             def run(stmts) -> bool:
                 """False when the function left through raise / return."""
                 for s_ in stmts:
-                    if isinstance(s_, ast.If) and not s_.orelse and s_.body and isinstance(s_.body[-1], ast.Raise) and "labelmap" in norm(s_.test):
-                        continue  # validation of the map's length: the non-raising continuation is what is analysed
+                    if isinstance(s_, ast.If) and not s_.orelse and s_.body and isinstance(s_.body[-1], ast.Raise):
+                        continue  # validation (of the map's length): the non-raising continuation is what is analysed
                     if isinstance(s_, ast.If):
                         if decide(s_.test):
                             if not run(s_.body):
